@@ -15,7 +15,10 @@ RULE = ("Hypothesis draws an operator-expression tree top-down for a drawn targe
         "complex, or multiplied into an operand of another dtype. distinct = distinct canonical-JSON hashes of such cases. One "
         "case in five is an annotated structured operator (Kronecker / BlockDiag / Tridiagonal / sums, Hermitian, PD or unitary by "
         "construction, complex emphasised, declared on leaves and/or the composite), alone or under T / H / product / sum / "
-        "Kronecker / block-diagonal / positive scalar / slice with equal or permuted index sets.")
+        "Kronecker / block-diagonal / positive scalar / slice with equal or permuted index sets."
+        " Further: right / left / transposed products interleaved on one operator object with operand widths taken"
+        " from the dimensions inside the tree and the first product repeated; column-major (Fortran-ordered) operands;"
+        " the same operator object as two children of a node.")
 ASSUMPTIONS = [
     "NumPy backend only, with the harness shim for vmap/linear_transpose/sparse_csr/to_np/jvp (DESIGN 3.1)",
     "integer payloads: exact equality demanded while |A||x| < 2^22 (f32) / 2^50 (f64); otherwise |err| <= 1e3*eps*|A||x|",
